@@ -21,7 +21,8 @@ RULE = ("registry built by introspection of every public callable of every aotoo
         "registry functions on a bundle of shared arrays, after every step no shared array changed and memoised results "
         "still reproduce. Non-trivial: case with at least one array argument (laws 1-3); program with >=3 calls of >=2 "
         "different functions sharing >=1 array. Distinct = canonical JSON (function name, variant, seed)."
-        " Also: argument variant 'nan' (one flagged sample per float array: may be rejected, never written to); screens handed out earlier are held un-copied across later add_row() calls.")
+        " Also: argument variant 'nan' (one flagged sample per float array: may be rejected, never written to); screens handed out earlier are held un-copied across later add_row() calls."
+        " Argument variant 'fortran' for every array argument of rank >= 2.")
 OUT_PARAMS = {"turbulence.infinitephasescreen.calc_seperations_fast": 1}     # numba kernel: argument 1 is its output array
 
 ASSUMPTIONS = ["calc_seperations_fast(positions, seperations) is a compiled kernel whose second argument is its output buffer by contract: only its first argument is required to stay unchanged",
